@@ -188,6 +188,9 @@ def run_case(i, rng, rec, tier, state):
         # sort_faces on scrambled meshes (convex and non-convex)
         c = gen.mesh_case(rng, kinds=("convexcopy", "voxel", "perturbed", "convexcopy"))
         V, faces = c["V"], c["faces"]
+        if rng.random() < 0.15:
+            V = V * float(10 ** rng.uniform(-9, 6))        # very small / very large units: index look-ups and tolerances must not care
+            rec.cls("scramble:extreme-units")
         perm, sf = gen.scramble_faces(rng, len(V), faces)
         V2 = np.empty_like(V)
         V2[perm] = V
@@ -226,6 +229,9 @@ def run_case(i, rng, rec, tier, state):
     if len(P) > 40:
         P = P[:40]
         P = P[gen.strict_hull_vertices(P)]
+    if rng.random() < 0.15:
+        P = P * float(10 ** rng.uniform(-9, 6))
+        rec.cls("merge:extreme-units")
     h = geom.hull_facets(P)
     if h.min_exterior_angle() < 1e-3:
         # two distinct facets within 1e-3 rad of coplanar: merge_faces' documented tolerances (atol 1e-8, rtol 1e-5)
